@@ -1122,4 +1122,107 @@ theorem smHlCont (pre t : Buf) (i : Nat) (h : Hdr) (hv : PHdrVals) (hfit : pre.s
       have hm := hXv.monoNV (st' := .fin) d2 d3 (by decide) (by decide)
       exact ⟨hm.from_, hm.to, hm.callid, hm.cseqP, hm.cseqL, hm.clen, hm.expires, (fun hh => by cases hh), (fun _ => M he)⟩
 
+theorem smParseBody_shape (b : Buf) (o : Nat) (h : Hdr) (hb : Option PHdrVals) {n : Nat} {e : Err} {h2 : Hdr}
+    {hb2 : Option PHdrVals} (hr : parseBody b o h hb = (n, e, h2, hb2)) :
+    h2.name = h.name ∧ (h2 = h ∨ h2.state.isVal) := by
+  unfold parseBody at hr
+  cases hb with
+  | none => simp only [Prod.mk.injEq] at hr; obtain ⟨_, _, rfl, _⟩ := hr; exact ⟨rfl, Or.inl rfl⟩
+  | some hv =>
+    repeat' split at hr
+    all_goals
+      (simp only [Prod.mk.injEq] at hr
+       obtain ⟨_, _, rfl, _⟩ := hr
+       first
+         | exact ⟨rfl, Or.inl rfl⟩
+         | exact ⟨rfl, Or.inr (by unfold HState.isVal; simp)⟩)
+
+/-- the code of `hlAfterColon` after the header-value dispatch returned `r` -/
+def smACk (i : Nat) (r : Nat × Err × Hdr × Option PHdrVals) : Step HLσ :=
+  if r.2.2.1.state != .bodyStart then
+    .done r.1 r.2.1 ((if r.2.1 == .ok then { r.2.2.1 with state := .fin } else r.2.2.1), r.2.2.2)
+  else .cont i (r.2.2.1, r.2.2.2)
+
+theorem smAC_some (b : Buf) (i : Nat) (h : Hdr) (hb : Option PHdrVals) (nm : Buf) (g : Hdr)
+    (hg : h.name.get? b = some nm) (hgg : g = { h with type := getHdrType nm }) :
+    hlAfterColon b i h hb = smACk i (parseBody b i g hb) := by
+  subst hgg
+  unfold hlAfterColon smACk
+  rw [hg]
+
+theorem smAC_none (b : Buf) (i : Nat) (h : Hdr) (hb : Option PHdrVals) (hg : h.name.get? b = none) :
+    hlAfterColon b i h hb = .done i .badChar ({ h with pnc := true }, hb) := by
+  unfold hlAfterColon
+  rw [hg]
+
+theorem smHlAfterColon (pre t : Buf) (i : Nat) (h : Hdr) (hb : Option PHdrVals) (hfit : pre.size + t.size ≤ 65535)
+    (hi : i ≤ t.size) (h1 : 1 ≤ i) (hst : h.state = .bodyStart) (hnF : h.name.inside t.size)
+    (hnz : 1 ≤ h.name.offs + h.name.len) (hok : hbOK t i hb) (hS : ∀ hv, hb = some hv → HvSafe t i .bodyStart hv)
+    (hXv : ∀ hv, hb = some hv → HvSh t i .bodyStart hv) :
+    smStepRel pre.size (shHL pre.size) (smRelHL pre.size)
+        (hlAfterColon (pre ++ t) (pre.size + i) (shHdr pre.size h) (hb.map (shHv pre.size))) (hlAfterColon t i h hb) ∧
+      smPost t (hlAfterColon t i h hb) := by
+  have hnm : (shHdr pre.size h).name = shF pre.size h.name := by
+    show shHn pre.size h.state h.name = _; rw [hst]; rfl
+  have hgB : (shHdr pre.size h).name.get? (pre ++ t) = h.name.get? t := by
+    rw [hnm, get?_shiftF pre t h.name hnF hfit]
+  unfold smPost
+  cases hg : h.name.get? t with
+  | none =>
+    rw [hg] at hgB
+    rw [smAC_none _ _ _ _ hgB, smAC_none _ _ _ _ hg]
+    exact ⟨⟨rfl, rfl, smRelHL_refl _ _ ({ h with pnc := true }, hb)⟩, fun hh => by rcases hh with hh | hh <;> cases hh⟩
+  | some nm =>
+    rw [hg] at hgB
+    rw [smAC_some _ _ _ _ nm (shHdr pre.size { h with type := getHdrType nm }) hgB rfl, smAC_some _ _ _ _ nm _ hg rfl]
+    have hX0 : HlSh t i ({ h with type := getHdrType nm }, hb) :=
+      ⟨fun _ => h1, (fun hh => by simp only at hh; rw [hst] at hh; rcases hh with hh | hh <;> cases hh),
+        fun _ _ _ => hnz, fun hv hh => by show HvSh t i h.state hv; rw [hst]; exact hXv hv hh⟩
+    cases hb with
+    | none =>
+      have e1 : ∀ (B : Buf) (o : Nat) (g : Hdr), parseBody B o g none = (o, .ok, g, none) := by
+        intro B o g; unfold parseBody; rfl
+      simp only [Option.map_none, e1]
+      have hs2 : ((shHdr pre.size { h with type := getHdrType nm }).state != HState.bodyStart) = false := by
+        show (h.state != HState.bodyStart) = false; rw [hst]; rfl
+      have hs1 : (({ h with type := getHdrType nm } : Hdr).state != HState.bodyStart) = false := by
+        show (h.state != HState.bodyStart) = false; rw [hst]; rfl
+      unfold smACk
+      simp only [hs1, hs2, Bool.false_eq_true, ↓reduceIte]
+      exact ⟨⟨rfl, rfl⟩, hX0⟩
+    | some hv =>
+      simp only [Option.map_some]
+      rcases hp : parseBody t i { h with type := getHdrType nm } (some hv) with ⟨n, e, h2, hb2⟩
+      obtain ⟨hv2, hv2', a1, a2, a3, a4, a5, a6⟩ := smParseBody pre t i { h with type := getHdrType nm } hv hfit h1 hi hst hok
+        (hS hv rfl) (hXv hv rfl) hp
+      subst a1
+      rw [a2]
+      have hsh := smParseBody_shape t i _ _ hp
+      unfold smACk
+      simp only
+      have hstB : ((shHdr pre.size h2).state != HState.bodyStart) = (h2.state != HState.bodyStart) := rfl
+      rw [hstB]
+      by_cases hc : (h2.state != HState.bodyStart) = true
+      · simp only [hc, ↓reduceIte]
+        have hisv : h2.state.isVal := by
+          rcases hsh.2 with g | g
+          · rw [g] at hc; simp only at hc; rw [hst] at hc; simp at hc
+          · exact g
+        have hnz2 : 1 ≤ h2.name.offs + h2.name.len := by rw [hsh.1]; exact hnz
+        have hrange : (e = .ok ∨ e = .moreBytes) → i ≤ n := by
+          intro he
+          rcases he with rfl | rfl
+          · exact (parseBody_post t i _ (some hv) hok hi hp).1
+          · exact (parseBody_restart t #[] i _ (some hv) hi hok hp).2.2.1
+        refine ⟨⟨rfl, rfl, smRelHL_mk _ _ _ _ hv2' hv2
+          (smHdr_fin pre.size h2 e h2.val _ (smHn_fin pre.size h2.state h2.name hisv hnz2) (fun _ => rfl)) a3 a4⟩, ?_⟩
+        exact smPost_val t i n h2 e h2.val hv2 h1 hrange hisv hnz2 a5 a6
+      · have hc' : (h2.state != HState.bodyStart) = false := by simpa using hc
+        simp only [hc', Bool.false_eq_true, ↓reduceIte]
+        have hk := parseBody_keep t i _ _ hp (by simpa using hc')
+        obtain ⟨rfl, rfl, rfl, hb2e⟩ := hk
+        cases hb2e
+        rw [a4 (Or.inl rfl)]
+        exact ⟨⟨rfl, rfl⟩, hX0⟩
+
 end Sipsp
